@@ -4,11 +4,16 @@ usage: seedcheck.py Cxx [--keep] [--props C01,C02]   (props default: the seed's 
 import json, os, shutil, subprocess, sys, time
 pid = sys.argv[1]
 props = [pid]
+root, suffix = "/tmp/seed", ""
 for a in sys.argv[2:]:
     if a.startswith("--props"):
         props = a.split("=")[1].split(",")
-src = f"/tmp/seed/{pid}/seed"
-scratch = f"/tmp/sc_{pid}"
+    if a.startswith("--root"):
+        root = a.split("=")[1]
+    if a.startswith("--suffix"):
+        suffix = a.split("=")[1]
+src = f"{root}/{pid}/seed"
+scratch = f"/tmp/sc_{pid}{suffix}"
 PY = "/verif/.ovenv/bin/python"
 def run(cmd, **kw):
     return subprocess.run(cmd, shell=True, capture_output=True, text=True, **kw)
@@ -34,7 +39,7 @@ try:
         lines = [l for l in r.stdout.splitlines() if l.startswith(("VIOLATION", "  violated", "  undecided", "  crash", "["))]
         out["checks"][p] = {"exit": r.returncode, "wall_s": round(time.time() - t0), "lines": lines[:8]}
     print(json.dumps(out, indent=1))
-    dst = f"/verif/seeded/{pid}"
+    dst = f"/verif/seeded/{pid}{suffix}"
     os.makedirs(dst, exist_ok=True)
     for f in ("patch.diff", "demo.py"):
         shutil.copy(os.path.join(src, f), os.path.join(dst, f))
